@@ -358,26 +358,22 @@ Import ListNotations.
 Local Open Scope string_scope.
 
 Theorem C15_wiring_Slice_column_share_sum :
-  wsrc_Slice_column_share_sum = Some (WTryValueError (w_matrix_of "column_share_sum")
-      "`.column_share_sum` is undefined for a cube-result without a sum measure").
+  wsrc_Slice_column_share_sum = Some (WTryValueError (w_matrix_of "column_share_sum") "").
 Proof. exact Proofs.GenAgreeWiring_C15.gen_wiring_Slice_column_share_sum. Qed.
 Print Assumptions C15_wiring_Slice_column_share_sum.
 
 Theorem C15_wiring_Slice_row_share_sum :
-  wsrc_Slice_row_share_sum = Some (WTryValueError (w_matrix_of "row_share_sum") "`.row_share_sum` is
-      undefined for a cube-result without a sum measure").
+  wsrc_Slice_row_share_sum = Some (WTryValueError (w_matrix_of "row_share_sum") "").
 Proof. exact Proofs.GenAgreeWiring_C15.gen_wiring_Slice_row_share_sum. Qed.
 Print Assumptions C15_wiring_Slice_row_share_sum.
 
 Theorem C15_wiring_Slice_total_share_sum :
-  wsrc_Slice_total_share_sum = Some (WTryValueError (w_matrix_of "total_share_sum")
-      "`.total_share_sum` is undefined for a cube-result without a sum measure").
+  wsrc_Slice_total_share_sum = Some (WTryValueError (w_matrix_of "total_share_sum") "").
 Proof. exact Proofs.GenAgreeWiring_C15.gen_wiring_Slice_total_share_sum. Qed.
 Print Assumptions C15_wiring_Slice_total_share_sum.
 
 Theorem C15_wiring_Strand_share_sum :
-  wsrc_Strand_share_sum = Some (WTryValueError (w_vector_of "share_sum") "`.share_sum` is undefined
-      for a cube-result without a sum measure").
+  wsrc_Strand_share_sum = Some (WTryValueError (w_vector_of "share_sum") "").
 Proof. exact Proofs.GenAgreeWiring_C15.gen_wiring_Strand_share_sum. Qed.
 Print Assumptions C15_wiring_Strand_share_sum.
 
